@@ -707,13 +707,14 @@ namespace
         const size_t slot = sizeof(typename Pool::storage_type);
         char *lo = (char *)pool->storage.data(), *hi = lo + Cap * slot;
         std::map<char *, std::pair<int, int>> live; // cell -> (tag, owner)
+        std::vector<char *> reserved;               // cells taken through the pool's C free list (freelist()), no object in them
         int tagc = 0;
         bool exhausted = false, refilled = false;
         auto check = [&](const char *when) {
             check_deferred();
-            if (pool->avail() != Cap - live.size())
-                violate("C10/pool-avail@static_object_pool", "%s: avail()=%zu, capacity %zu minus %zu live objects (element %zu bytes, slot %zu bytes)", when, pool->avail(), (size_t)Cap,
-                        live.size(), sizeof(T), slot);
+            if (pool->avail() != Cap - live.size() - reserved.size())
+                violate("C10/pool-avail@static_object_pool", "%s: avail()=%zu, capacity %zu minus %zu live objects minus %zu cells reserved through freelist() (element %zu bytes, slot %zu bytes)", when, pool->avail(), (size_t)Cap,
+                        live.size(), reserved.size(), sizeof(T), slot);
             if (g_life.live.size() != live.size()) violate("C10/object-lifetime", "%s: %zu objects alive, %zu created and not destroyed", when, g_life.live.size(), live.size());
             for (auto &kv : live)
                 for (size_t i = 0; i < sizeof(T); i++)
@@ -737,11 +738,36 @@ namespace
         {
             int k = (int)mod(arg(o, 0), 4);
             int c = (int)mod(arg(o, 1), nc);
+            if (k == 3)
+            {
+                // the pool's other interface: it hands out its C free list (freelist()), through which a caller reserves a raw cell
+                // with pool_alloc() and gives it back with pool_free(); both interfaces work on one stock of cells
+                if (mod(arg(o, 2), 2) == 0 || reserved.empty())
+                {
+                    char *cell = (char *)pool_alloc(pool->freelist());
+                    if (live.size() + reserved.size() == Cap) { if (cell) violate("C10/pool-over-capacity@static_object_pool", "pool_alloc(freelist()) handed out a cell of a pool whose %zu cells are all taken", (size_t)Cap); }
+                    else
+                    {
+                        if (!cell || cell < lo || cell + slot > hi || (size_t)(cell - lo) % slot != 0 || live.count(cell) || std::find(reserved.begin(), reserved.end(), cell) != reserved.end())
+                            violate("C10/pool-overlap@static_object_pool", "pool_alloc(freelist()) returned %s", !cell ? "null although cells are free" : "a cell that is taken, or no cell of this pool");
+                        reserved.push_back(cell);
+                        probe("cell_reserved_through_freelist");
+                    }
+                }
+                else
+                {
+                    size_t j = (size_t)mod(arg(o, 1), (int64_t)reserved.size());
+                    pool_free(pool->freelist(), reserved[j]);
+                    reserved.erase(reserved.begin() + (long)j);
+                }
+                check("after raw op");
+                continue;
+            }
             if (k == 0)
             {
                 T *obj = pool->create(++tagc);
                 char *b = (char *)obj;
-                if (live.size() == Cap)
+                if (live.size() + reserved.size() == Cap)
                 {
                     exhausted = true;
                     fault("pool_exhausted");
@@ -780,6 +806,7 @@ namespace
             check("after op");
         }
         while (!live.empty()) destroy(live.begin()->first);
+        while (!reserved.empty()) { pool_free(pool->freelist(), reserved.back()); reserved.pop_back(); }
         check("drained");
         res.nontrivial = exhausted && refilled;
     }
@@ -922,6 +949,7 @@ namespace
                 bool alloc = phase == 0 ? r.chance(1, 2) : phase == 1;
                 int64_t c = (int64_t)r.below(nc);
                 if (r.chance(1, 20)) p.ops.push_back({2, c, (int64_t)r.below(3)});
+                else if (r.chance(1, 10)) p.ops.push_back({3, (int64_t)r.below(9), alloc ? 0 : 1}); // raw cell through freelist(): reserve / give back
                 else if (alloc) p.ops.push_back({0, c});
                 else p.ops.push_back({1, c, r.chance(1, 2) ? -1 : (int64_t)r.below(30)});
             }
